@@ -1340,3 +1340,351 @@ def r64_year_gap_correction(ctx):
 
 
 RULES["R64"] = r64_year_gap_correction
+
+
+# ------------------------------------------------------------------- R65
+def r65_one_based_remainder(ctx):
+    """Days of a month / of a year and months count from 1.  Where a
+    conversion helper peels whole months (or years) off a 1-based count
+    that it then returns as the day (or month), the count is reduced by a
+    length L only where `count > L` held - strictly: with `count >= L` the
+    last day of a month becomes day 0 of the next.  The same holds for a
+    right-bisection into cumulative month ends (`bisect(ends, d)` sends
+    d == end to the next month; `bisect_left` is the one that keeps it)."""
+    rep = ctx.rep
+    rule = "R65.one-based-remainder"
+    P = ("C03", "C02", "C08", "C15")
+    rep.need_anchor(rule, "conversion helpers")
+    from ..flow import path_conds
+    n_f = n_sites = 0
+    for f in ctx.model.all_functions():
+        if f.module.name != "data" or f.cls is not None or \
+                "date" not in f.name:
+            continue
+        n_f += 1
+        # names returned as a 1-based component (not the year)
+        one_based = set()
+        for r in walk_no_nested(f.node):
+            if isinstance(r, ast.Return) and isinstance(
+                    r.value, ast.Tuple) and len(r.value.elts) in (2, 3):
+                for e in r.value.elts[1:]:
+                    if isinstance(e, ast.Name):
+                        one_based.add(e.id)
+            elif isinstance(r, ast.Return) and isinstance(
+                    r.value, ast.Call) and "date" in U(r.value.func):
+                for e in r.value.args[1:]:
+                    if isinstance(e, ast.Name):
+                        one_based.add(e.id)
+        if not one_based:
+            continue
+        bis = {}        # index name -> (bisect flavour, array, key)
+        for n in walk_no_nested(f.node):
+            if isinstance(n, ast.Assign) and len(n.targets) == 1 and \
+                    isinstance(n.targets[0], ast.Name) and isinstance(
+                        n.value, ast.Call) and U(n.value.func).split(
+                            ".")[-1] in ("bisect", "bisect_right",
+                                         "bisect_left") and len(
+                                             n.value.args) >= 2:
+                bis[n.targets[0].id] = (U(n.value.func).split(".")[-1],
+                                        U(n.value.args[0]),
+                                        U(n.value.args[1]))
+        for n in walk_no_nested(f.node):
+            tgt = val = None
+            if isinstance(n, ast.AugAssign) and isinstance(
+                    n.op, ast.Sub) and isinstance(n.target, ast.Name):
+                tgt, val, cur = n.target.id, n.value, n.target.id
+            elif isinstance(n, ast.Assign) and len(n.targets) == 1 and \
+                    isinstance(n.targets[0], ast.Name) and isinstance(
+                        n.value, ast.BinOp) and isinstance(
+                            n.value.op, ast.Sub) and isinstance(
+                                n.value.left, ast.Name):
+                tgt, val, cur = n.targets[0].id, n.value.right, \
+                    n.value.left.id
+            if tgt is None or tgt not in one_based:
+                continue
+            if isinstance(val, ast.Constant):
+                continue
+            n_sites += 1
+            rep.anchor(rule, "conversion helpers")
+            key = ctx.fkey(f, n, "peel")
+            L = U(val)
+            # right-bisection into cumulative ends
+            m = re.fullmatch(r"(\w+)\[(\w+) - 1\]", L)
+            if m and m.group(2) in bis and bis[m.group(2)][1] == m.group(1):
+                flavour = bis[m.group(2)][0]
+                rep.check(
+                    flavour == "bisect_left", rule, key, f.loc(n),
+                    "the count is reduced by the last cumulative end "
+                    "strictly below it (bisect_left)",
+                    "%s finds the month with %s(%s, %s) and returns `%s - "
+                    "%s` as a 1-based day: a right-bisection sends a count "
+                    "equal to a month end to the next month, with day 0 "
+                    "(2023-031 -> 02-00)" % (f.qual, flavour, m.group(1),
+                                             bis[m.group(2)][2], cur, L), P)
+                continue
+            strict = nonstrict = False
+            for t, pol in path_conds(n):
+                if not (isinstance(t, ast.Compare) and len(t.ops) == 1):
+                    continue
+                a, b, op = U(t.left), U(t.comparators[0]), type(t.ops[0])
+                if {a, b} != {cur, L}:
+                    continue
+                if a == L:      # normalise to  cur OP L
+                    op = {ast.Lt: ast.Gt, ast.Gt: ast.Lt, ast.LtE: ast.GtE,
+                          ast.GtE: ast.LtE}.get(op, op)
+                if not pol:
+                    op = {ast.Lt: ast.GtE, ast.GtE: ast.Lt, ast.Gt: ast.LtE,
+                          ast.LtE: ast.Gt}.get(op, op)
+                if op is ast.Gt:
+                    strict = True
+                elif op is ast.GtE:
+                    nonstrict = True
+            if strict:
+                rep.ok(rule, key, f.loc(n),
+                       "`%s` is reduced by %s only where it exceeds it" % (
+                           cur, L), P)
+            elif nonstrict:
+                rep.violation(
+                    rule, key, f.loc(n),
+                    "%s reduces the 1-based count `%s` by %s where only "
+                    "`%s >= %s` is established: a count equal to the length "
+                    "(the last day of the month / year) is carried into the "
+                    "next period as its day 0" % (f.qual, cur, L, cur, L), P)
+            else:
+                rep.undecided(rule, key, f.loc(n),
+                              "`%s -= %s`: no comparison of the two on the "
+                              "path decides whether the remainder stays "
+                              ">= 1" % (cur, L), P)
+    rep.anchor(rule, "conversion helpers")
+    if not n_sites:
+        rep.ok(rule, "data.py:no-peeling-of-one-based-counts", "-",
+               "no conversion helper (%d looked at) reduces a returned "
+               "1-based count by a period length (they walk the days)" %
+               n_f, P, nontrivial=False)
+
+
+RULES["R65"] = r65_one_based_remainder
+
+
+# ------------------------------------------------------------------- R66
+def r66_year_length_radix(ctx):
+    """Years differ in length, so the length of one year is not a radix: a
+    day count divided (divmod, //, %) by get_days_in_year(y) or by
+    DAYS_IN_YEAR[_LEAP] yields a right (years, day) pair only while the
+    quotient stays below 2 - and a week-year reaches into a third calendar
+    year.  Whole years are carried one at a time, each by its own length
+    (or with get_days_in_year_range)."""
+    rep = ctx.rep
+    rule = "R66.year-length-radix"
+    P = ("C03", "C17", "C08", "C04", "C15")
+    rep.need_anchor(rule, "functions of data.py")
+    from ..flow import alternatives
+    n_f = 0
+    bad = []
+
+    def is_year_len(f, e, depth=0):
+        if isinstance(e, ast.Call) and U(e.func).lstrip("_").startswith(
+                "get_days_in_year") and "range" not in U(e.func):
+            return True
+        if isinstance(e, ast.Attribute) and e.attr in (
+                "DAYS_IN_YEAR", "DAYS_IN_YEAR_LEAP"):
+            return True
+        if isinstance(e, ast.Name) and depth < 2:
+            al = alternatives(f.node, e.id)
+            return bool(al) and any(is_year_len(f, v, depth + 1)
+                                    for v, _ in al)
+        return False
+    for f in ctx.model.all_functions():
+        if f.module.name != "data":
+            continue
+        n_f += 1
+        for n in walk_no_nested(f.node):
+            div = None
+            if isinstance(n, ast.Call) and U(n.func) == "divmod" and len(
+                    n.args) == 2:
+                div = n.args[1]
+            elif isinstance(n, ast.BinOp) and isinstance(
+                    n.op, (ast.FloorDiv, ast.Mod)):
+                div = n.right
+            elif isinstance(n, ast.AugAssign) and isinstance(
+                    n.op, (ast.FloorDiv, ast.Mod)):
+                div = n.value
+            if div is not None and is_year_len(f, div):
+                bad.append((f, n))
+    rep.anchor(rule, "functions of data.py", n_f)
+    for f, n in bad:
+        rep.violation(
+            rule, ctx.fkey(f, n, "radix"), f.loc(n),
+            "%s divides a day count by the length of a single year (%s): "
+            "the quotient counts years of *that* length, so once the count "
+            "reaches into a third calendar year whose predecessor has "
+            "another length (2020-W53 from 30 December 2019) the remainder "
+            "is a day off" % (f.qual, U(n)[:70]), P)
+    if not bad:
+        rep.ok(rule, "data.py:no-year-length-radix", "-",
+               "no day count is divided by the length of a single year (%d "
+               "functions)" % n_f, P)
+
+
+RULES["R66"] = r66_year_length_radix
+
+
+# ------------------------------------------------------------------- R67
+def r67_cli_offset_sign(ctx):
+    """The command line accepts offsets of either sign in every duration
+    notation; the duration parser's own '-' prefix is narrower (it refuses
+    '-' before the date-time-like notation P0000-00-01).  date_shift
+    therefore never hands the parser a string that may still carry its
+    sign: on every path the text passed to duration_parser.parse() is
+    either the slice after a sign test or known not to start with '-'."""
+    rep = ctx.rep
+    rule = "R67.offset-sign"
+    P = ("C19",)
+    rep.need_anchor(rule, "offset parsing")
+    from ..flow import path_conds, alternatives, prefix_test
+    oper = ctx.model.cls("DateTimeOperator")
+    f = oper.methods.get("date_shift")
+    if f is None:
+        raise AnalysisError("DateTimeOperator.date_shift not found")
+    calls = [n for n in walk_no_nested(f.node) if isinstance(n, ast.Call)
+             and U(n.func).endswith("duration_parser.parse") and n.args]
+    rep.anchor(rule, "offset parsing")
+    if not calls:
+        rep.undecided(rule, ctx.fkey(f, None, "unsigned"), f.loc(),
+                      "date_shift does not call duration_parser.parse "
+                      "itself", P)
+        return
+    for c in calls:
+        arg = c.args[0]
+        key = ctx.fkey(f, c, "unsigned")
+        if not isinstance(arg, ast.Name):
+            rep.undecided(rule, key, f.loc(c), "the parsed text is %s, not "
+                          "a plain variable" % U(arg)[:40], P)
+            continue
+        # (a) the path to the call excludes a leading '-'
+        excluded = any(not pol and prefix_test(f.node, t, "-") == arg.id
+                       for t, pol in path_conds(c))
+        # (b) every binding of the name that can reach the call
+        stripped = []
+        for n in walk_no_nested(f.node):
+            if isinstance(n, ast.Assign) and any(
+                    isinstance(t, ast.Name) and t.id == arg.id
+                    for t in n.targets) and npos(n) < npos(c):
+                v = n.value
+                is_slice = isinstance(v, ast.Subscript) and isinstance(
+                    v.slice, ast.Slice) and U(v.value) == arg.id and \
+                    U(v.slice.lower or ast.Constant(value=0)) == "1"
+                conds = path_conds(n)
+                under_minus = any(
+                    _covers_minus(f.node, t, arg.id) and pol
+                    for t, pol in conds)
+                stripped.append(is_slice and under_minus)
+        ok = excluded or (bool(stripped) and any(stripped))
+        rep.check(ok, rule, key, f.loc(c),
+                  "a leading '-' is taken off (and applied as a "
+                  "subtraction) before the text reaches the parser",
+                  "%s passes `%s` to duration_parser.parse() with its sign "
+                  "still on: the parser refuses '-' before the date-time-"
+                  "like notation (-P0000-00-01), so negative offsets in "
+                  "that spelling are no longer accepted" % (f.qual, arg.id),
+                  P)
+
+
+def _covers_minus(fnode, t, name):
+    """test t (when true) includes the case `name starts with '-'`"""
+    from ..flow import prefix_test
+    if isinstance(t, ast.BoolOp) and isinstance(t.op, ast.Or):
+        return any(_covers_minus(fnode, v, name) for v in t.values)
+    if prefix_test(fnode, t, "-") == name:
+        return True
+    # name[0] in "+-" / name.startswith(("-", "+"))
+    if isinstance(t, ast.Compare) and len(t.ops) == 1 and isinstance(
+            t.ops[0], ast.In) and U(t.left) in (
+                name + "[0]", name + "[:1]") and isinstance(
+                    t.comparators[0], (ast.Constant, ast.Tuple, ast.List)):
+        c = t.comparators[0]
+        vals = c.value if isinstance(c, ast.Constant) else [
+            getattr(x, "value", None) for x in c.elts]
+        return "-" in vals
+    if isinstance(t, ast.Call) and isinstance(t.func, ast.Attribute) and \
+            t.func.attr == "startswith" and U(t.func.value) == name and \
+            t.args and isinstance(t.args[0], ast.Tuple):
+        return any(getattr(x, "value", None) == "-" for x in t.args[0].elts)
+    return False
+
+
+RULES["R67"] = r67_cli_offset_sign
+
+
+# ------------------------------------------------------------------- R68
+def r68_first_after_none(ctx):
+    """get_first_after(p) answers None only for a reason the series gives:
+    the point that would follow p lies outside the bounds, or p itself lies
+    outside them and not before the start point (or p is None).  An answer
+    of None taken before the bounds were consulted - because the series has
+    a single member, say - loses 'the first member when p precedes the
+    series'."""
+    rep = ctx.rep
+    rule = "R68.first-after-none"
+    P = ("C13",)
+    rep.need_anchor(rule, "TimeRecurrence.get_first_after")
+    f = ctx.try_func("data.TimeRecurrence.get_first_after")
+    if f is None:
+        raise AnalysisError("TimeRecurrence.get_first_after not found")
+    rep.anchor(rule, "TimeRecurrence.get_first_after")
+    from ..dtable import explore
+    key = ctx.fkey(f, None, "none-paths")
+    tp = f.params[1] if len(f.params) > 1 else None
+    try:
+        paths = explore(f.node.body)
+    except AnalysisError as exc:
+        rep.undecided(rule, key, f.loc(), "not tabulated: %s" % exc, P)
+        return
+    bad, unsure, n_none = [], [], 0
+    inb = re.compile(r"^%s\._get_is_in_bounds\((.*)\)$" % re.escape(
+        f.self_name))
+    for p in paths:
+        if p.outcome != "return" or not (
+                isinstance(p.value, ast.Constant) and p.value.value is None):
+            continue
+        n_none += 1
+        reason = False
+        probe_out = before_start = None
+        for atom, val in p.decisions.items():
+            m = inb.match(atom)
+            if m:
+                if m.group(1).strip() == tp:
+                    probe_out = (val is False)
+                elif val is False:
+                    reason = True       # the following point is outside
+            if atom == "%s is None" % tp and val:
+                reason = True
+            if atom.replace(" ", "") == "%s<%s._start_point" % (
+                    tp, f.self_name):
+                before_start = val
+        if probe_out and before_start is False:
+            reason = True
+        if reason:
+            continue
+        (unsure if p.skipped else bad).append(p.when()[:160] or "always")
+    if bad:
+        rep.violation(rule, key, f.loc(),
+                      "TimeRecurrence.get_first_after answers None when %s: "
+                      "neither the following point nor the probe was found "
+                      "outside the bounds on that path, so a probe before "
+                      "the series (whose first member should be returned) "
+                      "gets None" % bad[0], P)
+    elif unsure or not n_none:
+        rep.undecided(rule, key, f.loc(),
+                      "get_first_after: %s" % (
+                          "a None answer after a loop (%s)" % unsure[0]
+                          if unsure else "no constant None answer found"),
+                      P)
+    else:
+        rep.ok(rule, key, f.loc(),
+               "each of the %d paths answering None has found the following "
+               "point, or the probe (not before the start), outside the "
+               "bounds" % n_none, P)
+
+
+RULES["R68"] = r68_first_after_none
